@@ -898,6 +898,14 @@ func (e *cenv) callExpr(x *ECall) cval {
 			eqs = append(eqs, sEq(vc.look(e.cur, v), vc.look(e.old, v)))
 		}
 		return boolv(sAnd(eqs...))
+	case "onlyLockAdded":
+		// the mutexes held are those of the old state plus the given one
+		hv := vc.heapVar("$held", "(Array Int Bool)")
+		return boolv(sEq(vc.look(e.cur, hv), fmt.Sprintf("(store %s %s true)", vc.look(e.old, hv), arg(0).t)))
+	case "sameLocks":
+		// the set of mutexes held is what it was in the old state
+		hv := vc.heapVar("$held", "(Array Int Bool)")
+		return boolv(sEq(vc.look(e.cur, hv), vc.look(e.old, hv)))
 	case "chanClosed":
 		hv := vc.heapVar("GF!chanClosed", "(Array Int Bool)")
 		return boolv(fmt.Sprintf("(select %s %s)", vc.look(e.cur, hv), arg(0).t))
@@ -1088,6 +1096,17 @@ func (e *cenv) locsOf(m Expr) []loc {
 			t := e.eval(x.Args[0])
 			var out []loc
 			vc.forEachField(t.typ, func(a *Addr) { out = append(out, loc{Var: a.Var, Kind: "field"}) })
+			// ... and its ghost fields
+			bt := t.typ
+			if p, ok := bt.(*types.Pointer); ok {
+				bt = p.Elem()
+			}
+			for _, key := range sortedKeys(vc.DB.Ghosts) {
+				g := vc.DB.Ghosts[key]
+				if !g.Global && g.Recv == typeKey(bt) && g.Name != "chanSent" && g.Name != "chanClosed" {
+					out = append(out, loc{Var: vc.heapVar("GF!"+g.Name, "(Array Int "+ghostSort(g.Sort)+")"), Kind: "field"})
+				}
+			}
 			return out
 		case "allelems":
 			t := e.eval(x.Args[0])
@@ -1106,6 +1125,10 @@ func (e *cenv) locsOf(m Expr) []loc {
 	case *EIdent:
 		if x.Name == "lockset" {
 			return []loc{{Var: vc.heapVar("$held", "(Array Int Bool)"), Kind: "global"}}
+		}
+		if x.Name == "channels" {
+			// the channel monitors (sends per channel, closed flag)
+			return []loc{{Var: vc.heapVar("GF!chanSent", "(Array Int Int)"), Kind: "global"}, {Var: vc.heapVar("GF!chanClosed", "(Array Int Bool)"), Kind: "global"}}
 		}
 		if x.Name == "waitgroups" {
 			return []loc{{Var: vc.heapVar("$wg", "(Array Int Int)"), Kind: "global"}, {Var: vc.heapVar("$waited", "(Array Int Bool)"), Kind: "global"}}
